@@ -302,6 +302,11 @@ func getterMux() handler.Map {
 		"bad":      func(ctx context.Context, req *jrpc2.Request) (any, error) { return make(chan int), nil },
 		"a/b":      func(ctx context.Context, req *jrpc2.Request) (any, error) { return "nested", nil },
 		"notfound": func(ctx context.Context, req *jrpc2.Request) (any, error) { return nil, jrpc2.MethodNotFound.Err() },
+		// failures of the handler's own making that carry the context codes
+		"ctxc": func(ctx context.Context, req *jrpc2.Request) (any, error) { return nil, context.Canceled },
+		"ctxd": func(ctx context.Context, req *jrpc2.Request) (any, error) {
+			return nil, fmt.Errorf("inner timeout: %w", context.DeadlineExceeded)
+		},
 	}
 }
 
@@ -353,7 +358,7 @@ func runGet(_ *testing.T, g Get) (v engine.Verdict) {
 		want = 400
 	case method == "ok" || method == "echo" || method == "a/b" || method == "rpc.serverInfo":
 		want = 200
-	case method == "fail" || method == "coded" || method == "bad":
+	case method == "fail" || method == "coded" || method == "bad" || method == "ctxc" || method == "ctxd":
 		want = 500
 	default:
 		want = 404
@@ -372,7 +377,7 @@ func runGet(_ *testing.T, g Get) (v engine.Verdict) {
 				return engine.Failf("C19/getter/result", "GET %q: body %s", g.Target, body)
 			}
 		}
-	} else {
+	} else if method != "ctxc" && method != "ctxd" { // (for those the property asks for valid JSON only; the body is {})
 		var eo struct {
 			Code *int `json:"code"`
 		}
@@ -384,7 +389,7 @@ func runGet(_ *testing.T, g Get) (v engine.Verdict) {
 }
 
 func genGet(t *rapid.T) Get {
-	path := rapid.SampledFrom([]string{"/ok", "//ok//", "/echo", "/fail", "/coded", "/bad", "/nope", "/notfound", "/a/b", "/a/b/", "/", "", "//", "/Ok", "/ok/x", "/rpc.serverInfo", "/rpc.x"}).Draw(t, "path")
+	path := rapid.SampledFrom([]string{"/ok", "//ok//", "/echo", "/fail", "/coded", "/bad", "/ctxc", "/ctxd", "/nope", "/notfound", "/a/b", "/a/b/", "/", "", "//", "/Ok", "/ok/x", "/rpc.serverInfo", "/rpc.x"}).Draw(t, "path")
 	q := genQuery(t)
 	g := Get{Target: path, Query: rapid.Bool().Draw(t, "useparsequery")}
 	if q.Query != "" {
